@@ -43,4 +43,6 @@ MUTANTS = [
         {"file": SG, "old": "                if counter_next > n_slow_stage_iter or n_window_iter < 1:", "new": "                if counter_next > n_slow_stage_iter:"},
         {"file": SG, "old": "        self.n_init_slow_window_iter = n_init_slow_window_iter\n", "new": "        if n_init_slow_window_iter < 1 or slow_window_multiplier < 1:\n            raise ValueError(\"window settings\")\n        self.n_init_slow_window_iter = n_init_slow_window_iter\n"}]},
     m("c16-twin-progress-guard-le0", None, SG, "                if counter_next > n_slow_stage_iter or n_window_iter < 1:", "                if n_window_iter <= 0 or counter_next > n_slow_stage_iter:", twin=True),
+    m("c16-warmup-stage-needs-adapters", "R1", SG, "        if n_warm_up_iter > 0:\n            warm_up_trace_funcs = trace_funcs if trace_warm_up else None\n            sampling_stages[\"Adaptive warm up\"]", "        if n_warm_up_iter > 0 and (adapters or trace_warm_up):\n            warm_up_trace_funcs = trace_funcs if trace_warm_up else None\n            sampling_stages[\"Adaptive warm up\"]", key="condition"),
+    m("c16-twin-warmup-cond-flipped", None, SG, "        if n_warm_up_iter > 0:\n            warm_up_trace_funcs = trace_funcs if trace_warm_up else None\n            sampling_stages[\"Adaptive warm up\"]", "        if 0 < n_warm_up_iter:\n            warm_up_trace_funcs = trace_funcs if trace_warm_up else None\n            sampling_stages[\"Adaptive warm up\"]", twin=True),
 ]
